@@ -29,7 +29,7 @@ func init() {
 		Parts: []Part{
 			{Name: "totality", Run: c19Total, QuickS: 60, ThoroughS: 600},
 			{Name: "totality-starts", Run: c19Starts, QuickS: 60, ThoroughS: 600},
-			{Name: "faithful", Run: c19Faithful, QuickS: 60, ThoroughS: 600},
+			{Name: "faithful", Run: c19Faithful, QuickS: 90, ThoroughS: 1500},
 			{Name: "scanned-points", Run: c19Points, QuickS: 30, ThoroughS: 60},
 		},
 	})
@@ -258,6 +258,17 @@ func c19Ref(tag string) (value string, args map[string][]string, required bool) 
 	return
 }
 
+// c19Rare: argument options added in later rounds (empty items, groups nested in a group of the
+// same kind).
+func c19Rare(a c19Arg) bool {
+	for _, v := range a.Vals {
+		if v == "" || strings.HasPrefix(v, "[[") || strings.HasPrefix(v, "((") {
+			return true
+		}
+	}
+	return false
+}
+
 func c19Faithful(c *core.Ctx) {
 	maxArgs := 3
 	if c.Thorough() {
@@ -288,10 +299,15 @@ func c19Faithful(c *core.Ctx) {
 			if !yield(c19FCase{value, append([]c19Arg{}, cur...)}) {
 				return false
 			}
-			if len(cur) == maxArgs {
+			if len(cur) == maxArgs || (len(cur) == 3 && strings.HasPrefix(value, "[[")) {
 				return true
 			}
 			for _, a := range argOpts {
+				// a fourth argument (thorough) only from the plain alphabet: empty items and same-kind
+				// nesting are covered in every position of tags with up to three arguments
+				if len(cur) >= 3 && c19Rare(a) {
+					continue
+				}
 				if !rec(value, append(cur[:len(cur):len(cur)], a)) {
 					return false
 				}
